@@ -6,8 +6,22 @@ ROOT = os.path.dirname(os.path.dirname(os.path.abspath(__file__)))
 SAN = ['-fsanitize=address,undefined', '-fno-sanitize-recover=undefined']
 
 # One-TU harnesses: name -> source, flags.
-SINGLES = {}
+SINGLES = {
+    'endian': dict(src='harness/endian.cc', flags=['-O2']),
+}
 SETUP_EXTRA = []
+
+
+def single_jobs(name, nshards_quick=1, nshards_thorough=1, extra=None):
+    def f(b, prop, tier, seed):
+        spec = SINGLES[name]
+        bn = b.build_single(name, os.path.join(ROOT, spec['src']), spec['flags'], spec.get('link_flags'))
+        if not bn:
+            return None
+        n = nshards_thorough if tier == 'thorough' else nshards_quick
+        return [_job('single:' + name, bn, ['--prop', prop, '--tier', tier, '--seed', str(seed), '--shard', '%d/%d' % (i, n)] + (extra or []),
+                     '%s%02d' % (name, i)) for i in range(n)]
+    return f
 
 
 def _job(target, binary, args, unit, **kw):
@@ -83,3 +97,9 @@ PROPS = {
                 'resolution order, wrong type tags, scripted resolver/push errors. Non-trivial = handles at >= 2 depths or inside a table entry.',
                 assumptions=[]),
 }
+
+PROPS['C20'] = dict(level='exploration', jobs=single_jobs('endian', 4, 16),
+                    rule='All 8- and 16-bit patterns exhaustively; 32-bit types (incl. float): prime-stride sweep of 2^32 (4.2M values per type) in quick, all 2^32 '
+                    'in thorough; 64-bit types (incl. double): byte-lane patterns, boundaries, NaN payloads and rapidcheck-generated words. Each value checks '
+                    'From/To Little/Big and the four round trips against a memcpy/byte-reversal oracle. Non-trivial = byte image is not a palindrome.',
+                    assumptions=['host endianness from __BYTE_ORDER__', 'built without UBSan: the shift-or idiom left-shifts into the sign bit (undefined before C++20, not a value error)'])
